@@ -189,7 +189,7 @@ THOROUGH = [_reg(Reassemble("T_tile_rcseq_k2", 2, 7, AL, "reverse_complement_seq
 # (4) the whole pipeline on small concrete samples under every schedule within the preemption bound: create -> extract returns every
 #     sample exactly (shared groups, reverse-complemented contig, IUPAC codes, N-run, contig shorter than k, identical contigs)
 from harness import C02 as _C02
-from harness.pipe import Pipeline, SPL, C1, C2, C3
+from harness.pipe import Pipeline, SPL, C1, C2, C3, TWO as _TWO0
 
 
 def _alias(inst, name):
@@ -202,7 +202,7 @@ from harness.pipe import RICH
 QUICK += [_alias(_C02.INSTANCES["pack_raw"], "pack_raw").name, _alias(_C02.INSTANCES["pack_lz"], "pack_lz").name,
           _reg(Pipeline("pipe_rt_api_t1", 1, RICH, splitters=SPL, preempt=0, driver="api")).name,
           _reg(Pipeline("pipe_rt_multi_t2", 2, RICH, splitters=SPL, preempt=0, driver="multi")).name]
-THOROUGH += ["pack_raw", "pack_lz", _reg(Pipeline("T_pipe_rt_api_t2_p1", 2, RICH, splitters=SPL, preempt=1, driver="api")).name,
+THOROUGH += ["pack_raw", "pack_lz", _reg(Pipeline("T_pipe_rt_api_t2_p1", 2, _TWO0, splitters=SPL, preempt=1, driver="api")).name,
              _reg(Pipeline("T_pipe_rt_multi_t2_store", 2, RICH, splitters=SPL, preempt=0, driver="multi", zstd="store")).name,
              _reg(Pipeline("T_pipe_rt_single_t2", 2, RICH, splitters=SPL, preempt=0, driver="single", pack_size=Int(64, 0, 3))).name]
 # (5) symbolic edit scripts through the whole pipeline: the second sample's contig is the reference contig with one substitution at EVERY
